@@ -18,6 +18,7 @@ conversion, PNG). That is observed on every run: `pixsvg` compares `Spec.Raster`
 import FastQr.Proofs.RasterRead
 import FastQr.Proofs.RasterGeom
 import FastQr.Props.C13
+import FastQr.Proofs.ValuesOnly
 import Mathlib.Tactic.Ring
 
 namespace FastQr.Props.C13
@@ -264,6 +265,20 @@ theorem C13_image_text (ops : List Image.Op) (q : QR)
       some (modelScene (Svg.Builder.run (svgOpsOf ops)) q) := by
   rw [C13_forwarding]
   exact C13_scene _ q hc hi
+
+/-- **C13 (every QR code value)**: the scene — hence everything the ideal renderer shows — depends on the size and the
+module values only; a hand-assembled copy of a symbol gives the same scene -/
+theorem C13_values_only (b : Svg.Builder) (q q' : QR) (h : Proofs.ValuesOnly.SameValues q q') :
+    modelScene b q = modelScene b q' := by
+  have hc : ∀ sh, modelCells b q sh = modelCells b q' sh := fun sh => by
+    simp only [modelCells, Proofs.ValuesOnly.darkCells_congr q q' h]
+  have hl : modelLayer b q = modelLayer b q' := by
+    funext sc
+    simp only [modelLayer, hc]
+  simp only [modelScene, hl]
+
+theorem C13_hand_copy (b : Svg.Builder) (q : QR) : modelScene b (Proofs.ValuesOnly.handCopy q) = modelScene b q :=
+  (C13_values_only b q _ (Proofs.ValuesOnly.handCopy_same q)).symm
 
 /-! non-vacuity: a 21x21 matrix with two dark modules, margin 2, a circle layer and a red rounded-square layer on top,
 rendered at 100 pixels for 25 cells (4 px per module): the centre pixel of the dark module at row 3, column 4 is red,
